@@ -12,11 +12,49 @@ pub struct Out {
     w: std::io::BufWriter<std::fs::File>,
     pub n: usize,
 }
+/// Number of operations completed so far (one per recorded or skipped event): read by the watchdog.
+pub static PROGRESS: std::sync::atomic::AtomicU64 = std::sync::atomic::AtomicU64::new(0);
+
+/// CPU seconds (user + system) used by this process so far (Linux /proc; 0 if unavailable)
+fn cpu_seconds() -> f64 {
+    let s = std::fs::read_to_string("/proc/self/stat").unwrap_or_default();
+    let rest = s.rsplit(')').next().unwrap_or("");
+    let f: Vec<&str> = rest.split_whitespace().collect();
+    if f.len() > 12 {
+        let t: f64 = f[11].parse::<f64>().unwrap_or(0.0) + f[12].parse::<f64>().unwrap_or(0.0);
+        t / 100.0
+    } else {
+        0.0
+    }
+}
+
+/// Watchdog against operations of the code under test that never return: if the process burns `limit` CPU seconds
+/// without completing a single further operation, say so and abort (the orchestrator reports the abort).  CPU time,
+/// not wall time: a starved process does not trip it.
+pub fn start_watchdog(limit: f64) {
+    std::thread::spawn(move || {
+        let mut last = PROGRESS.load(std::sync::atomic::Ordering::Relaxed);
+        let mut cpu_at_last = cpu_seconds();
+        loop {
+            std::thread::sleep(std::time::Duration::from_secs(2));
+            let now = PROGRESS.load(std::sync::atomic::Ordering::Relaxed);
+            if now != last {
+                last = now;
+                cpu_at_last = cpu_seconds();
+            } else if cpu_seconds() - cpu_at_last > limit {
+                eprintln!("WATCHDOG: the operation after event {} has used more than {} CPU seconds without returning (it does not terminate)", now, limit);
+                std::process::abort();
+            }
+        }
+    });
+}
+
 impl Out {
     pub fn new(path: &str) -> Self {
         Out { w: std::io::BufWriter::new(std::fs::File::create(path).expect("create trace")), n: 0 }
     }
     pub fn ev(&mut self, kind: &str, mut body: Value) {
+        PROGRESS.fetch_add(1, std::sync::atomic::Ordering::Relaxed);
         if body.is_null() {
             return;
         }
